@@ -903,6 +903,22 @@ func exImportedElementGraphs() []*exGraph {
 				"C": m{"type": "array", "items": m{"$ref": loc + "#/definitions/other"}}, "name": m{"type": "integer"}}}
 		out = append(out, exFromGeneric(m{"file:///q/root.json": root, loc: types}, "file:///q/root.json"))
 	}
+	// documents used both by the sections walked first (definitions, shared parameters, shared responses) and under paths: one
+	// expansion, one request each
+	{
+		ext := m{"swagger": "2.0", "info": m{"title": "ext", "version": "1"}, "paths": m{},
+			"definitions": m{"T": m{"type": "object", "description": "T of ext", "properties": m{"n": m{"type": "string"}}}},
+			"parameters":  m{"p": m{"name": "p", "in": "body", "schema": m{"$ref": "#/definitions/T"}}}}
+		other := m{"swagger": "2.0", "info": m{"title": "other", "version": "1"}, "paths": m{},
+			"responses": m{"r": m{"description": "r of other", "schema": m{"$ref": "ext.json#/definitions/T"}}}}
+		root := m{"swagger": "2.0", "info": m{"title": "root", "version": "1"},
+			"definitions": m{"A": m{"$ref": "ext.json#/definitions/T"}},
+			"parameters":  m{"shared": m{"$ref": "ext.json#/parameters/p"}},
+			"responses":   m{"shared": m{"$ref": "other.json#/responses/r"}},
+			"paths": m{"/a": m{"get": m{"parameters": []interface{}{m{"$ref": "ext.json#/parameters/p"}},
+				"responses": m{"200": m{"$ref": "other.json#/responses/r"}, "default": m{"description": "d", "schema": m{"$ref": "ext.json#/definitions/T"}}}}}}}
+		out = append(out, exFromGeneric(m{"file:///tw/root.json": root, "file:///tw/ext.json": ext, "file:///tw/other.json": other}, "file:///tw/root.json"))
+	}
 	// two different documents whose locations differ by the scheme alone (or by the port, or by a query): used in one expansion, by
 	// absolute references, by a relative hop that inherits the scheme of its document, and by parameters of a specification
 	for _, rootLoc := range []string{"http://h.example/api/root.json", "https://h.example/api/root.json"} {
